@@ -257,10 +257,28 @@ public:
                 p.add("mmiow", {(s64)r.below(0x10000), (s64)(r.chance(1, 4) ? r.pick(std::vector<int>{0, 1, 7, 8, 9, 0xFF, 0xFFFF, 0x40C0, 0x8000}) : (r.next() & 0xFFFF))});
             else if (x < 27)
                 p.add("mmior", {(s64)r.below(0x10000)});
-            else if (x < 30) // DMA with arbitrary configuration
-                p.add("dma", {(s64)r.below(16), (s64)(r.next() & (r.chance(1, 3) ? 0xFFFFFFFF : 0x1FFFF)), (s64)(r.next() & (r.chance(1, 3) ? 0xFFFFFFFF : 0x1FFFF)), (s64)r.below(40), (s64)r.below(8),
-                              (s64)r.below(4), (s64)(r.next() & 0xFFFF), (s64)(r.next() & 0xFFFF), (s64)r.pick(std::vector<int>{0, 0, 7, 7, 1, 5, 3, 15}),
-                              (s64)r.pick(std::vector<int>{0, 0, 7, 7, 1, 5, 2, 15}), (s64)r.below(2), (s64)(r.next() & 0x3FF)});
+            else if (x < 30) { // DMA with arbitrary configuration, biased to the edges of the value space
+                auto addr = [&]() -> s64 {
+                    switch (r.below(5)) {
+                    case 0:
+                        return (s64)(0x1FFC0 + r.below(0x50)); // around the end of data memory
+                    case 1:
+                        return (s64)r.below(0x100);
+                    case 2:
+                        return (s64)(r.next() & 0x1FFFF);
+                    case 3:
+                        return (s64)(0xFFF0 + r.below(0x20)); // around the bank boundary
+                    default:
+                        return (s64)(r.next() & 0xFFFFFFFF);
+                    }
+                };
+                auto small = [&](int cap) -> s64 { return r.chance(1, 2) ? (s64)r.below(3) : (s64)r.below((u64)cap); };
+                auto step = [&]() -> s64 { return r.chance(2, 3) ? (s64)r.pick(std::vector<int>{0, 1, 1, 1, 2, 0xFFFF, 0x8000}) : (s64)(r.next() & 0xFFFF); };
+                s64 st0 = step(), st1 = r.chance(1, 2) ? st0 : step();
+                p.add("dma", {(s64)r.below(16), addr(), addr(), r.chance(1, 4) ? (s64)r.range(0x20, 0x200) : small(40), small(8), small(4), st0, st1,
+                              (s64)r.pick(std::vector<int>{0, 0, 0, 7, 7, 1, 5, 3, 15}), (s64)r.pick(std::vector<int>{0, 0, 0, 7, 7, 1, 5, 2, 15}),
+                              (s64)r.below(2), (s64)(r.next() & 0x3FF)});
+            }
             else if (x < 32)
                 p.add("host", {(s64)r.below(12), (s64)(r.next() & 0xFFFFF), (s64)(r.next() & 0xFFFF)});
             else if (x < 34)
